@@ -128,6 +128,7 @@ func vStagedTransform(id, fnName string, loopIdx, n int, q uint64, run func(in, 
 	}
 	vUnstub("MRedLazy")
 	vCover(id + "-reached")
+	vForget() // the transforms / moduli are independent cases (fresh symbols each)
 	// end-to-end witness for a refuted stage lemma (native replay only): the real transform on a deterministic
 	// battery of inputs, compared with the definition matrix and the documented output range
 	vSearch(id, 1<<14, func(rnd func() uint64) bool {
